@@ -21,11 +21,12 @@ INFO = {
                   "MultiImage.to_scalar_multi_image", "MultiImage.from_scalar_multi_image", "ml.LayerWrapper.__call__", "ml.ConvContract.__call__"],
     "bounds": {
         "quick": "classes {ResNet, DilResNet, UNet, ConvBlock} x {equivariant, conventional} x depth {1,3} x blocks {1,2} x downsamples {1,2} x norm x bias x "
-                 "activation x kernel {3,(3,1)} x 5 signatures (several types, pseudo-types, unequal channels, both key orders) x torus {True, False, mixed} x "
+                 "activation x kernel {3,(3,1)} x 8 signatures (several types, pseudo-types, unequal channels, both key orders, single-type outputs incl. a lone pseudoscalar / pseudovector) x torus {True, False, mixed} x "
                  "d in {2,3}, N=4 (8 for 2 downsamples): pairwise-covering core + seeded cells",
         "thorough": "300 seeded cells",
     },
-    "outside": ["BatchNorm (needs an eqx.nn.State; the structural half runs with use_batch_norm=False)"],
+    "outside": ["equivariant d=3 models asked for a type that is only reachable through intermediate types of higher order than the model holds "
+                "(signatures 5 and 7 are used in d=2 and in conventional mode only)", "BatchNorm (needs an eqx.nn.State; the structural half runs with use_batch_norm=False)"],
     "assumptions": ["value half: the scalar CNN is an uninterpreted function of its input array"],
 }
 
@@ -35,6 +36,9 @@ SIGS = [
     ([((0, 1), 1), ((1, 0), 1)], [((0, 0), 1), ((1, 1), 1)]),
     ([((1, 1), 2)], [((0, 1), 1), ((1, 0), 2)]),
     ([((0, 0), 2)], [((2, 0), 1), ((0, 0), 1)]),
+    ([((0, 0), 1), ((1, 0), 1)], [((0, 1), 2)]),          # a single output type, and it is a pseudoscalar
+    ([((0, 1), 1)], [((0, 1), 1)]),                         # pseudoscalar only, both sides
+    ([((1, 0), 1)], [((1, 1), 2)]),                         # a single pseudovector output
 ]
 
 
@@ -71,14 +75,19 @@ def cells(tier, seed):
             c["blocks"] = 1
             if c["sig"] == 4:
                 c["sig"] = 0
+            if c["equiv"] and c["sig"] in (5, 7):
+                # d=3, side 3, orders <= 2: B_3 has no invariant filter of type (0,1) or (1,1), so a pseudoscalar is not DIRECTLY reachable
+                # from scalars / vectors; whether a model must route it through order-2 intermediate types is not what the statement
+                # fixes -> these signatures are used in d=2 and in conventional mode only
+                c["sig"] = 6
         k = repr(sorted((a, repr(b)) for a, b in c.items()))
         if k not in seen:
             seen.add(k)
             out.append(c)
     for cls in ("resnet", "dil", "unet"):
         for D in (2, 3):
-            for si in (1, 3, 4):
-                if D == 3 and si == 4:
+            for si in (1, 3, 4, 5, 6, 7):
+                if D == 3 and si in (4, 7):
                     continue
                 out.append({"kind": "value", "cls": cls, "D": D, "sig": si})
     for D in (2, 3):
